@@ -70,7 +70,7 @@ impl Cfg {
     }
     /// what MultiPathManagerConfig::validate documents
     pub fn valid(&self) -> bool {
-        self.min_delay_ms <= self.refetch_ms && self.min_delay_ms <= self.threshold_ms
+        self.max_cached >= 1 && self.min_delay_ms <= self.refetch_ms && self.min_delay_ms <= self.threshold_ms
     }
 }
 
@@ -402,9 +402,6 @@ impl<'w> Sim<'w> {
                     self.model.delivered.push(Delivered { inst: *inst, admissible: adm, fetch_no: self.model.fetches });
                     if adm {
                         n_adm += 1;
-                        if inst_expiry_ms(inst) > ms(t) {
-                            n_adm_live += 1;
-                        }
                     } else {
                         self.model.saw_rejected = true;
                     }
@@ -412,12 +409,16 @@ impl<'w> Sim<'w> {
                 // the manager keys paths by route (fingerprint): a later entry of the same
                 // result overwrites an earlier one, so "latest" is the last admissible one
                 if n_adm > 0 {
+                    let mut this_fetch: BTreeMap<u8, PathInst> = BTreeMap::new();
                     for (inst, p) in insts.iter().zip(built) {
                         if self.admissible(inst, p) {
                             self.model.latest.insert(inst.route, *inst);
                             self.model.ever_admissible.insert(inst.route);
+                            this_fetch.insert(inst.route, *inst);
                         }
                     }
+                    // live by the manager's (conservative, whole-second) rule
+                    n_adm_live = this_fetch.values().filter(|i| (i.exp_s as i64) * 1000 > ms(t)).count();
                 }
             }
             let outcome = if n_adm_live > 0 {
